@@ -182,12 +182,78 @@ NEEDS = {
             'signal for longer than one check',
     'C18d': 'fresh declarations of a grouped ddmin step passed through a set: '
             'two declarations in one step, different hash seeds',
+    # third wave (authored against the tree with every repair)
+    'C01e': 'a timed-out run reported with exit status -9: golden run killed '
+            'by SIGKILL, both streams ignored, a candidate that runs into '
+            'the time limit',
+    'C01f': 'ignore options of the command under test leak into the cross '
+            'check: -c given, --ignore-out/err for the main command, no '
+            '--ignore-output-cc, a candidate on which the cross check keeps '
+            'its exit status and changes the leaked stream',
+    'C02e': 'symbol tables re-collected only when the node count changes: '
+            'an accepted rename (last pass) followed by a proposal that needs '
+            'the sort of the renamed symbol',
+    'C02f': 'candidate file name memoised per process and inherited across '
+            'fork: hybrid, -j >= 2, a check in the main process first, two '
+            'workers writing their candidates at once',
+    'C03e': 'get_sort knows (as f S): a non-leaf default constant of a set '
+            'sort gets a fresh variable / a variable, which Constants '
+            'replaces by that constant again',
+    'C03f': 'parallel ddmin retries a late success from its subset index: '
+            'two removable subsets of one level, the check of the first '
+            'slower, -j >= 2',
+    'C04e': 'guard on runtime None removed from the statistics: -v, '
+            'hierarchical phase, a check that raises in the worker (output '
+            'that is not UTF-8)',
+    'C04f': 'tokens scanned with a wider white-space class than the '
+            'dispatcher: form feed, vertical tab, NEL, no-break space outside '
+            'literals',
+    'C05e': 'parallel ddmin does not refresh the pickled base once the '
+            'generator handed out its last subset: two adoptions in one '
+            'level, -j >= 2',
+    'C05f': 'ddmin drops the result of a top-level pass whose accepted steps '
+            'removed only leaves (comments): a later accepted step derives '
+            'from the superseded input',
+    'C06e': 'temporary file committed in finally: an interrupt between two '
+            'low-level writes of a rewrite of the output',
+    'C06f': 'SIGINT re-raised with the default disposition before the '
+            'clean-up: any interrupt, look at $TMPDIR after exit',
+    'C09e': 'candidate file name memoised per thread id, inherited across '
+            'fork: ddmin/hybrid, -j >= 2',
+    'C09f': 'streams the main command ignores are not captured for the cross '
+            'check either: -c, --ignore-out/err, no --ignore-output-cc',
+    'C10e': '--memout through RLIMIT_DATA: memory obtained by an anonymous '
+            'shared mapping beyond the limit',
+    'C10f': 'time limit enforced with SIGTERM: a command that ignores '
+            'SIGTERM',
+    'C11e': 'structural key mapped to None treated as no entry: deletion of '
+            'a subtree designated by structure',
+    'C11f': 'identity entries not consumed on use: an input in which one '
+            'node object occurs at several positions (outside the trees the '
+            'property quantifies over; see DESIGN 11)',
+    'C13e': 'ids handed out in per-process blocks, a fork inherits a '
+            'half-used block: a worker process applies a sharing '
+            'simplification',
+    'C13f': 're-duplication moved into the sequential branch of ddmin only: '
+            '-j >= 2, a parallel round accepting a sharing simplification',
+    'C14e': 'theory detection re-run on the reduced input when the second '
+            'phase of hybrid starts: every declaration of the theory removed '
+            'by ddmin, literals of the theory left',
+    'C14f': 'ddmin switches binary-reduction off in the shared option '
+            'namespace: hybrid, the hierarchical phase inherits it',
+    'C18e': 'a timed-out check reports the partial output: minimising a '
+            'hang (golden run times out, explicit --timeout), a command that '
+            'prints progress lines',
+    'C18f': 'automatic time limit of the cross check derived from the main '
+            'golden run: a slow reference solver, a fast main command',
 }
 # checks of other properties that also see a change
 ALSO = {'C02c': ['C13'], 'C02d': ['C14'], 'C06d': ['C02'], 'C01c': ['C07'], 'C11c': ['C15'], 'C10d': ['C04'], 'C17c': ['C16'],
         'C18c': ['C05'], 'C05d': ['C01'], 'C03d': ['C17'],
         'C01b': ['C09'], 'C02b': ['C04'], 'C04b': ['C02'], 'C15b': ['C11'],
-        'C13a': ['C12'], 'C11b': ['C17'], 'C17b': ['C11']}
+        'C13a': ['C12'], 'C11b': ['C17'], 'C17b': ['C11'],
+        'C13e': ['C12'], 'C01f': ['C09'], 'C09e': ['C01'], 'C02f': ['C01'],
+        'C03f': ['C05'], 'C11f': ['C13']}
 
 
 def sh(cmd, timeout=7200):
